@@ -33,6 +33,8 @@ type c08Case struct {
 	// SeqZero lets the transport hand out request sequence number 0 (wrap-around). Only used in plans
 	// without unsolicited events, where a sequence-0 datagram can only be the reply.
 	SeqZero bool `json:"allow_request_sequence_zero,omitempty"`
+	// SendFail: the transport refuses to send the (SendFail-1)-th request of the operation (0 = none).
+	SendFail int `json:"send_fails_at_request,omitempty"`
 }
 
 var c08Ops = []string{"getstatus", "getrules", "addrule", "deleterule", "deleterules", "set-pid", "set-ratelimit", "set-backloglimit", "set-enabled", "set-immutable", "set-failure", "set-backlogwait"}
@@ -71,11 +73,14 @@ type c08Outcome struct {
 		Status []byte
 		Rules  [][]byte
 	}
-	ExpectOK    bool
-	ExpectErrno int
-	Sim         *simkernel.Sim
-	Follow      error
-	FollowOK    bool
+	ExpectOK      bool
+	ExpectErrno   int
+	Sim           *simkernel.Sim
+	Follow        error
+	FollowOK      bool
+	Rule          []byte // argument of AddRule / DeleteRule
+	NMain         int    // requests sent by the main operation
+	ExpectSendErr bool
 }
 
 func statusPayload(r *mon.Rand, n int) []byte {
@@ -202,8 +207,17 @@ func c08Exec(k *c08Case) *c08Outcome {
 		}
 		return st
 	}
+	if k.SendFail > 0 {
+		sim.SendErrFn = func(nth int) error {
+			if nth == k.SendFail-1 && !mainDone {
+				return syscall.ENOBUFS
+			}
+			return nil
+		}
+	}
 	c := &libaudit.AuditClient{Netlink: sim}
 	rule := r.Bytes(1044)
+	out.Rule = rule
 	switch k.Op {
 	case "getstatus":
 		out.Status, out.Err = c.GetStatus()
@@ -230,6 +244,7 @@ func c08Exec(k *c08Case) *c08Outcome {
 	case "set-backlogwait":
 		out.Err = c.SetBacklogWaitTime(int32(r.Intn(60000)), libaudit.WaitForReply)
 	}
+	out.NMain = len(sim.Sent)
 	mainDone = true
 	// does the adversarial variant actually apply to this op?
 	advApplies := k.Adv != ""
@@ -241,7 +256,10 @@ func c08Exec(k *c08Case) *c08Outcome {
 		}
 	}
 	errnoReached := k.Errno != 0 && (k.ErrAt == 0 || (k.Op == "deleterules" && k.ErrAt <= nr))
+	sendFailReached := k.SendFail > 0 && (k.SendFail == 1 || (k.Op == "deleterules" && k.SendFail-1 <= nr && !(k.Errno != 0 && k.ErrAt < k.SendFail-1)))
 	switch {
+	case sendFailReached:
+		out.ExpectSendErr = true
 	case advApplies:
 		// malformed / foreign stream: any error is right, success or data is wrong
 	case errnoReached:
@@ -250,7 +268,7 @@ func c08Exec(k *c08Case) *c08Outcome {
 		out.ExpectOK = true
 	}
 	// follow-up traffic: only meaningful when the stream is in a defined state
-	if !advApplies && (out.ExpectOK || out.ExpectErrno != 0) {
+	if out.ExpectSendErr || (!advApplies && (out.ExpectOK || out.ExpectErrno != 0)) {
 		sim.Queue = nil
 		st, err := c.GetStatus()
 		out.Follow = err
@@ -284,8 +302,34 @@ func c08Check(c *mon.Ctx, k *c08Case) {
 		c.Violation("panic", fmt.Sprintf("panic %v in op %s\n%s", p, k.Op, st), k)
 		return
 	}
-	desc := fmt.Sprintf("op=%s rules=%d errno=%d@%d adv=%q unsolicited=%v bursts=%v bursts_before_events=%v start_seq=%d", k.Op, k.NRules, k.Errno, k.ErrAt, k.Adv, k.Unsol, k.Burst, k.EvBurst, k.StartSeq)
+	desc := fmt.Sprintf("op=%s rules=%d errno=%d@%d adv=%q unsolicited=%v bursts=%v bursts_before_events=%v start_seq=%d send_fails_at=%d", k.Op, k.NRules, k.Errno, k.ErrAt, k.Adv, k.Unsol, k.Burst, k.EvBurst, k.StartSeq, k.SendFail)
+	// the request(s) the operation put on the wire
+	if k.Adv == "" && o.NMain > 0 {
+		wantType := map[string]uint16{"getstatus": uapi.MsgGet, "getrules": uapi.MsgListRules, "deleterules": uapi.MsgListRules, "addrule": uapi.MsgAddRule, "deleterule": uapi.MsgDelRule}[k.Op]
+		if strings.HasPrefix(k.Op, "set-") {
+			wantType = uapi.MsgSet
+		}
+		m := o.Sim.Sent[0]
+		if m.Type != wantType || m.Flags&(uapi.NlmFRequest|uapi.NlmFAck) != uapi.NlmFRequest|uapi.NlmFAck {
+			c.Violation("wrong-request:"+k.Op, fmt.Sprintf("the operation sent a request of type %d flags %#x, want type %d with NLM_F_REQUEST|NLM_F_ACK\n  %s", m.Type, m.Flags, wantType, desc), k)
+			return
+		}
+		if (k.Op == "addrule" || k.Op == "deleterule") && !bytes.Equal(m.Data, o.Rule) {
+			c.Violation("wrong-request:"+k.Op, "the request does not carry the caller's rule bytes\n  "+desc, k)
+			return
+		}
+		c.Add("request_shapes_checked", 1)
+	}
 	switch {
+	case o.ExpectSendErr:
+		c.Add("cases_send_refused", 1)
+		if o.Err == nil {
+			c.Violation("send-error-swallowed:"+k.Op, fmt.Sprintf("the transport refused to send request %d of the operation (ENOBUFS), the kernel never acknowledged it, but the call returned nil\n  %s", k.SendFail-1, desc), k)
+			return
+		}
+		if o.Status != nil || len(o.Rules) > 0 {
+			c.Violation("data-with-error:"+k.Op, "data returned together with a send error\n  "+desc, k)
+		}
 	case o.ExpectOK:
 		c.Add("cases_expect_success", 1)
 		if o.Err != nil {
@@ -454,6 +498,29 @@ func c08Cases(c *mon.Ctx) []*c08Case {
 							bu[len(bu)/2] = b
 						}
 						add(c08Case{Op: op, NRules: nr, Errno: errno, StartSeq: start, SeqZero: true, Burst: bu})
+					}
+				}
+			}
+		}
+	}
+	// the transport refuses to send a request: the kernel never acknowledged it, so the call must fail
+	for _, op := range c08Ops {
+		nr := 0
+		if op == "getrules" || op == "deleterules" {
+			nr = 3
+		}
+		last := 1
+		if op == "deleterules" {
+			last = nr + 1
+		}
+		for sf := 1; sf <= last; sf++ {
+			for _, errno := range []int{0, int(syscall.EPERM)} {
+				for ea := 0; ea < last; ea++ {
+					if errno == 0 && ea > 0 {
+						continue
+					}
+					for _, u := range []int{0, 1} {
+						add(c08Case{Op: op, NRules: nr, Errno: errno, ErrAt: ea, SendFail: sf, Unsol: []int{u}})
 					}
 				}
 			}
